@@ -118,6 +118,22 @@ func (c *c05Run) respawn() error {
 // send one request and judge liveness. Returns the canonical outcome string ("s204", "crash", "hang", "abort").
 func (c *c05Run) send(stream string, routeName, shape string, rq c05Request, model string) (string, error) {
 	o, dead := c.p.Do(rq, c.deadline)
+	if o.Class == "hang" {
+		// a verdict that rests on a clock is reported only when the request ALONE, in a fresh child, with 10x the time,
+		// is still not answered: a hung request stays hung, one that was slow because the machine is busy does not
+		if dead {
+			c.batch = nil
+			if err := c.respawn(); err != nil {
+				return "hang", err
+			}
+		}
+		if o2, dead2 := c.p.Do(rq, 10*c.deadline); o2.Class != "hang" {
+			c.r.Count("outcome:" + stream + ":deadline-missed-but-answered-alone-with-10x-time")
+			o, dead = o2, dead2
+		} else {
+			dead = dead2
+		}
+	}
 	if os.Getenv("C05_DEBUG") != "" {
 		fmt.Fprintf(os.Stderr, "%s %s %s %s -> %s %d %dms\n", stream, routeName, shape, rq.Path, o.Class, o.Status, o.Elapsed)
 	}
